@@ -1,8 +1,447 @@
-//! Implementation side of driver op `json` (see /verif/CONTRIBUTING.md).
+//! Implementation side of driver op `json` (see /verif/CONTRIBUTING.md, property C05).
+//!
+//! Wire syntax of values (no spaces), shared with `RsjModel/Json.lean`:
+//!   `z` | `t` | `f` | `n<16 hex IEEE bits>:<hex token>;` | `s<hex utf8>;`
+//!   | `[` v* `]` | `{` (`v`|`h`) `<hex key>;` v ... `}`   (`h` = hidden field `::`)
+//! The implementation uses the bit pattern of a number, the model its token.
+//!
+//! The value is rebuilt as Jsonnet source whose leaves are external variables
+//! (numbers and strings are injected as `Value`s, so neither the Jsonnet lexer nor
+//! number parsing is involved), evaluated by the real `Program`, and manifested
+//! through the requested entry point.
 #![allow(unused_imports, dead_code)]
+use crate::ops_eval::{eval_err, load_err, Cb};
 use crate::util::*;
+use rsjsonnet_lang::arena::Arena;
+use rsjsonnet_lang::program::{Program, Value, ValueKind};
 
-/// `json <args...>`: one canonical answer line, or `None` for a malformed request.
-pub fn handle(_args: &[&str]) -> Option<String> {
-    None
+enum W {
+    Null,
+    Bool(bool),
+    Num(f64),
+    Str(String),
+    Arr(Vec<W>),
+    Obj(Vec<(bool, String, W)>),
+}
+
+fn take_until<'a>(s: &'a [u8], pos: &mut usize, t: u8) -> Option<&'a str> {
+    let start = *pos;
+    while *pos < s.len() && s[*pos] != t {
+        *pos += 1;
+    }
+    if *pos >= s.len() {
+        return None;
+    }
+    let r = std::str::from_utf8(&s[start..*pos]).ok()?;
+    *pos += 1;
+    Some(r)
+}
+
+fn hex_str(h: &str) -> Option<String> {
+    if h.is_empty() {
+        return Some(String::new());
+    }
+    String::from_utf8(hex_dec(h)?).ok()
+}
+
+fn read_val(s: &[u8], pos: &mut usize) -> Option<W> {
+    let c = *s.get(*pos)?;
+    *pos += 1;
+    match c {
+        b'z' => Some(W::Null),
+        b't' => Some(W::Bool(true)),
+        b'f' => Some(W::Bool(false)),
+        b'n' => {
+            let bits = take_until(s, pos, b':')?;
+            let _tok = take_until(s, pos, b';')?;
+            let bits = u64::from_str_radix(bits, 16).ok()?;
+            Some(W::Num(f64::from_bits(bits)))
+        }
+        b's' => {
+            let h = take_until(s, pos, b';')?;
+            Some(W::Str(hex_str(h)?))
+        }
+        b'[' => {
+            let mut items = Vec::new();
+            loop {
+                if *s.get(*pos)? == b']' {
+                    *pos += 1;
+                    return Some(W::Arr(items));
+                }
+                items.push(read_val(s, pos)?);
+            }
+        }
+        b'{' => {
+            let mut fields = Vec::new();
+            loop {
+                let c = *s.get(*pos)?;
+                *pos += 1;
+                match c {
+                    b'}' => return Some(W::Obj(fields)),
+                    b'v' | b'h' => {
+                        let k = hex_str(take_until(s, pos, b';')?)?;
+                        let v = read_val(s, pos)?;
+                        fields.push((c == b'h', k, v));
+                    }
+                    _ => return None,
+                }
+            }
+        }
+        _ => None,
+    }
+}
+
+fn decode_val(s: &str) -> Option<W> {
+    let b = s.as_bytes();
+    let mut pos = 0;
+    let v = read_val(b, &mut pos)?;
+    if pos == b.len() {
+        Some(v)
+    } else {
+        None
+    }
+}
+
+struct Src {
+    nums: Vec<f64>,
+    strs: Vec<String>,
+}
+
+impl Src {
+    fn str_ref(&mut self, s: &str) -> String {
+        let i = match self.strs.iter().position(|x| x == s) {
+            Some(i) => i,
+            None => {
+                self.strs.push(s.to_string());
+                self.strs.len() - 1
+            }
+        };
+        format!("std.extVar(\"s{}\")", i)
+    }
+
+    fn emit(&mut self, w: &W, out: &mut String) {
+        match w {
+            W::Null => out.push_str("null"),
+            W::Bool(true) => out.push_str("true"),
+            W::Bool(false) => out.push_str("false"),
+            W::Num(x) => {
+                self.nums.push(*x);
+                out.push_str(&format!("std.extVar(\"n{}\")", self.nums.len() - 1));
+            }
+            W::Str(s) => {
+                let r = self.str_ref(s);
+                out.push_str(&r);
+            }
+            W::Arr(items) => {
+                out.push('[');
+                for (i, it) in items.iter().enumerate() {
+                    if i != 0 {
+                        out.push_str(", ");
+                    }
+                    self.emit(it, out);
+                }
+                out.push(']');
+            }
+            W::Obj(fields) => {
+                out.push('{');
+                for (i, (hidden, k, v)) in fields.iter().enumerate() {
+                    if i != 0 {
+                        out.push_str(", ");
+                    }
+                    let r = self.str_ref(k);
+                    out.push('[');
+                    out.push_str(&r);
+                    out.push(']');
+                    out.push_str(if *hidden { ":: " } else { ": " });
+                    self.emit(v, out);
+                }
+                out.push('}');
+            }
+        }
+    }
+}
+
+fn show_val(v: &Value<'_>, out: &mut String) {
+    match v.kind() {
+        ValueKind::Null => out.push('z'),
+        ValueKind::Bool(true) => out.push('t'),
+        ValueKind::Bool(false) => out.push('f'),
+        ValueKind::Number(x) => out.push_str(&format!("n{:016x}:;", x.to_bits())),
+        ValueKind::String(s) => {
+            out.push('s');
+            if !s.is_empty() {
+                out.push_str(&hex_enc(s.as_bytes()));
+            }
+            out.push(';');
+        }
+        ValueKind::Array(items) => {
+            out.push('[');
+            for it in items.iter() {
+                show_val(it, out);
+            }
+            out.push(']');
+        }
+        ValueKind::Object(fields) => {
+            out.push('{');
+            for (k, it) in fields.iter() {
+                out.push('v');
+                if !k.value().is_empty() {
+                    out.push_str(&hex_enc(k.value().as_bytes()));
+                }
+                out.push(';');
+                show_val(it, out);
+            }
+            out.push('}');
+        }
+        ValueKind::Function => out.push('F'),
+    }
+}
+
+enum Out {
+    /// result must be a string; answer `ok <hex>`
+    Str,
+    /// `Program::manifest_json(value, multiline)`
+    Manifest(bool),
+    /// answer the value in wire syntax
+    Wire,
+}
+
+fn run(src: &str, nums: &[f64], strs: &[(String, String)], out: Out) -> String {
+    let arena = Arena::new();
+    let mut program = Program::new(&arena);
+    let mut cb = Cb::new();
+    for (i, x) in nums.iter().enumerate() {
+        let n = program.intern_str(&format!("n{}", i));
+        let t = program.value_to_thunk(&Value::number(*x));
+        program.add_ext_var(n, &t);
+    }
+    for (name, val) in strs.iter() {
+        let n = program.intern_str(name);
+        let t = program.value_to_thunk(&Value::string(val));
+        program.add_ext_var(n, &t);
+    }
+    let (ctx, _) = program.span_manager_mut().insert_source_context(src.len());
+    let thunk = match program.load_source(ctx, src.as_bytes(), true, "<json>") {
+        Ok(t) => t,
+        Err(e) => return load_err(&e),
+    };
+    match program.eval_value(&thunk, &mut cb) {
+        Err(e) => eval_err(&e),
+        Ok(v) => match out {
+            Out::Str => match v.to_string() {
+                Some(s) => format!("ok {}", hex_enc(s.as_bytes())),
+                None => "err mode notstring -".into(),
+            },
+            Out::Manifest(ml) => match program.manifest_json(&v, ml) {
+                Ok(s) => format!("ok {}", hex_enc(s.as_bytes())),
+                Err(e) => eval_err(&e),
+            },
+            Out::Wire => {
+                let mut s = String::from("ok ");
+                show_val(&v, &mut s);
+                s
+            }
+        },
+    }
+}
+
+fn bit(c: u8) -> Option<&'static str> {
+    match c {
+        b'1' => Some("true"),
+        b'0' => Some("false"),
+        _ => None,
+    }
+}
+
+/// Map `failed to parse JSON: line L, column C: <kind text>` to the model's kind names.
+fn parse_err_kind(msg: &str) -> String {
+    let m = match msg.strip_prefix("failed to parse JSON: ") {
+        Some(m) => m,
+        None => return format!("other:{}", hex_enc(msg.as_bytes())),
+    };
+    // skip "line L, column C: "
+    let m = match m.find(": ") {
+        Some(i) => &m[i + 2..],
+        None => m,
+    };
+    let chr = |s: &str| -> u32 { s.chars().next().map(|c| c as u32).unwrap_or(0) };
+    if m == "expected value" {
+        "expectedValue".into()
+    } else if m == "expected end-of-file" {
+        "expectedEof".into()
+    } else if m == "expected object key" {
+        "expectedObjectKey".into()
+    } else if m == "invalid number" {
+        "invalidNumber".into()
+    } else if m == "number overflow" {
+        "numberOverflow".into()
+    } else if m == "unfinished string" {
+        "unfinishedString".into()
+    } else if m == "invalid character in string" {
+        "invalidChrInString".into()
+    } else if m == "invalid string escape" {
+        "invalidStringEscape".into()
+    } else if let Some(r) = m.strip_prefix("repeated field name ") {
+        // `{:?}` of the name: undo the Debug quoting through the JSON-free route is not
+        // possible in general; the check only compares the kind for non-trivial names.
+        format!("repeatedFieldName:{}", hex_enc(r.as_bytes()))
+    } else if let Some(r) = m.strip_prefix("expected `") {
+        let parts: Vec<&str> = r.split('`').collect();
+        // "X` or `Y`" -> ["X", " or ", "Y", ""] ; "X`" -> ["X", ""]
+        if parts.len() >= 3 {
+            format!("expected2:{}:{}", chr(parts[0]), chr(parts[2]))
+        } else {
+            format!("expected1:{}", chr(parts[0]))
+        }
+    } else {
+        format!("other:{}", hex_enc(m.as_bytes()))
+    }
+}
+
+/// `json manifest <fmt> <value>` | `json parse <hextext>` | `json escape <hexstr>` |
+/// `json yamlplain <hexstr>` | `json tomlplain <hexstr>` | `json tomlkey <hexstr>` |
+/// `json reparse <fmt> <value>` (implementation's own parser on its own output)
+pub fn handle(args: &[&str]) -> Option<String> {
+    match args {
+        ["manifest", fmt, val] | ["reparse", fmt, val] => {
+            let reparse = args[0] == "reparse";
+            let w = decode_val(val)?;
+            let mut sb = Src { nums: Vec::new(), strs: Vec::new() };
+            let mut v = String::new();
+            sb.emit(&w, &mut v);
+            let mut strs: Vec<(String, String)> = sb
+                .strs
+                .iter()
+                .enumerate()
+                .map(|(i, s)| (format!("s{}", i), s.clone()))
+                .collect();
+            let f: Vec<&str> = fmt.split(':').collect();
+            let (src, out) = match f.as_slice() {
+                ["D"] => (v.clone(), Out::Manifest(true)),
+                ["T"] => (v.clone(), Out::Manifest(false)),
+                ["S"] => (format!("std.toString({})", v), Out::Str),
+                ["C"] => (format!("\"\" + {}", v), Out::Str),
+                ["M"] => (format!("std.manifestJsonMinified({})", v), Out::Str),
+                ["J"] => (format!("std.manifestJson({})", v), Out::Str),
+                ["X", i, n, k] => {
+                    strs.push(("fi".into(), String::from_utf8(hex_dec(i)?).ok()?));
+                    strs.push(("fn".into(), String::from_utf8(hex_dec(n)?).ok()?));
+                    strs.push(("fk".into(), String::from_utf8(hex_dec(k)?).ok()?));
+                    (
+                        format!(
+                            "std.manifestJsonEx({}, std.extVar(\"fi\"), std.extVar(\"fn\"), std.extVar(\"fk\"))",
+                            v
+                        ),
+                        Out::Str,
+                    )
+                }
+                ["X1", i] => {
+                    // defaults for newline / key_val_sep
+                    strs.push(("fi".into(), String::from_utf8(hex_dec(i)?).ok()?));
+                    (format!("std.manifestJsonEx({}, std.extVar(\"fi\"))", v), Out::Str)
+                }
+                ["P"] => (format!("std.manifestPython({})", v), Out::Str),
+                ["Y", fl] => {
+                    let b = fl.as_bytes();
+                    if b.len() != 2 {
+                        return None;
+                    }
+                    (
+                        format!("std.manifestYamlDoc({}, {}, {})", v, bit(b[0])?, bit(b[1])?),
+                        Out::Str,
+                    )
+                }
+                ["Y0"] => (format!("std.manifestYamlDoc({})", v), Out::Str),
+                ["YS", fl] => {
+                    let b = fl.as_bytes();
+                    if b.len() != 3 {
+                        return None;
+                    }
+                    (
+                        format!(
+                            "std.manifestYamlStream({}, {}, {}, {})",
+                            v,
+                            bit(b[0])?,
+                            bit(b[1])?,
+                            bit(b[2])?
+                        ),
+                        Out::Str,
+                    )
+                }
+                ["O", i] => {
+                    strs.push(("fi".into(), String::from_utf8(hex_dec(i)?).ok()?));
+                    (format!("std.manifestTomlEx({}, std.extVar(\"fi\"))", v), Out::Str)
+                }
+                ["O0"] => (format!("std.manifestToml({})", v), Out::Str),
+                _ => return None,
+            };
+            if reparse {
+                // implementation's own decoder on its own output, compared with `==`
+                let dec = match f[0] {
+                    "Y" | "Y0" => "std.parseYaml",
+                    _ => "std.parseJson",
+                };
+                let src = match out {
+                    Out::Str => format!("local v = {}; {}({}) == v", v, dec, src),
+                    _ => return None,
+                };
+                return Some(run(&src, &sb.nums, &strs, Out::Wire));
+            }
+            Some(run(&src, &sb.nums, &strs, out))
+        }
+        ["parse", h] => {
+            let text = String::from_utf8(hex_dec(h)?).ok()?;
+            let strs = vec![("t".to_string(), text)];
+            let r = run("std.parseJson(std.extVar(\"t\"))", &[], &strs, Out::Wire);
+            if let Some(rest) = r.strip_prefix("err eval Other ") {
+                let msg = String::from_utf8(hex_dec(rest)?).ok()?;
+                return Some(format!("err {}", parse_err_kind(&msg)));
+            }
+            Some(r)
+        }
+        ["yamlparse", h] => {
+            let text = String::from_utf8(hex_dec(h)?).ok()?;
+            let strs = vec![("t".to_string(), text)];
+            Some(run("std.parseYaml(std.extVar(\"t\"))", &[], &strs, Out::Wire))
+        }
+        ["escape", h] => {
+            // through std.manifestJsonMinified of a string
+            let s = String::from_utf8(hex_dec(h)?).ok()?;
+            let strs = vec![("t".to_string(), s)];
+            let r = run("std.manifestJsonMinified(std.extVar(\"t\"))", &[], &strs, Out::Str);
+            Some(r.strip_prefix("ok ").map(|x| x.to_string()).unwrap_or(r))
+        }
+        ["yamlplain", h] => {
+            // observable through std.manifestYamlDoc(.., quote_keys=false): key emitted bare or quoted
+            let s = String::from_utf8(hex_dec(h)?).ok()?;
+            let strs = vec![("t".to_string(), s.clone())];
+            let r = run(
+                "std.manifestYamlDoc({[std.extVar(\"t\")]: null}, false, false)",
+                &[],
+                &strs,
+                Out::Str,
+            );
+            let out = String::from_utf8(hex_dec(r.strip_prefix("ok ")?)?).ok()?;
+            let bare = format!("{}: null", s);
+            Some(if out == bare && !s.starts_with('"') { "1".into() } else { "0".into() })
+        }
+        ["tomlplain", h] | ["tomlkey", h] => {
+            let s = String::from_utf8(hex_dec(h)?).ok()?;
+            let strs = vec![("t".to_string(), s.clone())];
+            let r = run(
+                "std.manifestTomlEx({[std.extVar(\"t\")]: true}, \"\")",
+                &[],
+                &strs,
+                Out::Str,
+            );
+            let out = String::from_utf8(hex_dec(r.strip_prefix("ok ")?)?).ok()?;
+            let key = out.strip_suffix(" = true")?;
+            if args[0] == "tomlkey" {
+                Some(hex_enc(key.as_bytes()))
+            } else {
+                Some(if key == s && !s.starts_with('"') { "1".into() } else { "0".into() })
+            }
+        }
+        _ => None,
+    }
 }
